@@ -31,7 +31,7 @@ pub fn calm_net(g: &mut Gen) -> Value {
         1 => json!([0, 300]),
         _ => json!([50, 5_000]),
     };
-    json!({"defer_ppm": *g.pick(&[0u64, 0, 30_000, 150_000]), "yield_pct": *g.pick(&[0u64, 30, 100]), "yield_ppm": *g.pick(&[100_000u64, 400_000]), "yield_long_ppm": 0, "yield_force": [],
+    json!({"budget_ppm": *g.pick(&[0u64, 0, 40_000, 200_000]), "defer_ppm": *g.pick(&[0u64, 0, 30_000, 150_000]), "yield_pct": *g.pick(&[0u64, 30, 100]), "yield_ppm": *g.pick(&[100_000u64, 400_000]), "yield_long_ppm": 0, "yield_force": [],
         "pipe": {"capacity": *g.pick(&[4096u64, 65_536, 1 << 20]), "rcut_ppm": *g.pick(&[0u64, 200_000, 600_000]), "wcut_ppm": *g.pick(&[0u64, 200_000]), "one_byte_ppm": *g.pick(&[0u64, 0, 1_000]), "pend_ppm": *g.pick(&[0u64, 50_000]), "lat": lat}})
 }
 
